@@ -3,7 +3,7 @@
 // (poolmax / poolcap / poolmin parameters), every atomic access, plain protocol read and pthread call is a
 // scheduling point.  Futures live on the heap and are deleted right after the join / result conversion (the
 // documented usage): the shim reports any pthread call on a destroyed mutex / condition variable.
-//   clients=<n> futs=<futures per client> mode=<0 join then read result | 1 result conversion | 2 restart same future>
+//   clients=<n> futs=<futures per client> mode=<0 join then read result | 1 result conversion | 2 restart same future | 3 sequential calls after an idle period | 4 restart same future, then result conversion without join>
 //   abort=<0|1> sleep=<ms virtual sleep of client 1 between start and join: lets the pool's idle clock advance>
 #include "../sched/sched.h"
 #include <stdio.h>
@@ -41,7 +41,7 @@ static void client(void* arg)
     if(doAbort == 1 && (id & 1)) { sched_event("\"op\":\"abort\",\"f\":%d", id); fut[i]->abort(); }
   }
   if(sleepMs && c == 1) usleep((useconds_t)sleepMs * 1000);
-  if(mode == 2)
+  if(mode == 2 || mode == 4)
   {
     // start the same future object again without joining first: start() must wait for the first call
     int id = c * 8, id2 = c * 8 + 4;
@@ -83,10 +83,10 @@ static void client(void* arg)
   }
   for(int i = 0; i < nfuts; ++i)
   {
-    int id = (mode == 2 && i == 0) ? c * 8 + 4 : c * 8 + i;
+    int id = ((mode == 2 || mode == 4) && i == 0) ? c * 8 + 4 : c * 8 + i;
     sched_event("\"op\":\"join\",\"f\":%d", id);
     int r;
-    if(mode == 1) r = *fut[i];                     // result conversion joins
+    if(mode == 1 || mode == 4) r = *fut[i];        // result conversion joins (mode 4: on a future object used for its second call)
     else { fut[i]->join(); r = *fut[i]; }
     sched_event("\"op\":\"joinret\",\"f\":%d,\"r\":%d,\"fin\":%s,\"ab\":%s,\"execs\":%d", id, r,
                 fut[i]->isFinished() ? "true" : "false", fut[i]->isAborted() ? "true" : "false", (int)execCount[id]);
